@@ -140,6 +140,15 @@ def run(ctx):
                 for b in (a, a.get('base') or {}):
                     if b.get('max_store_duration') is not None:
                         b['max_store_duration'] = (int(b['max_store_duration'] / step_units) + 0.5) * step_units
+    # steps of unequal length with a maximum holding duration (daily steps across a clock change)
+    specs += gen.gen_many(ctx.seed, n // 5, dict(CFG, freqs=['d'], tzs=['CET'], p_dst=1.0, T=(4, 8), p_max_store=0.8, p_coarse=0.0, p_periodic=0.0,
+                                                 p_unaligned_end=0.0, kinds={'Storage': 1}, n_assets=(1, 2)), 'c12dst_')
+    # split optimisation must be unit free as well (the interval problems are built on sub-grids)
+    spl = gen.gen_many(ctx.seed, n // 4, dict(CFG, p_coarse=0.0, p_periodic=0.0, freqs=['h', '30min'], T=(6, 10), p_max_store=0.0, p_no_simult=0.0, p_full_exec=0.0,
+                                              kinds={'SimpleContract': 2, 'Contract': 3, 'Transport': 2, 'Storage': 2, 'ExtendedTransport': 1}), 'c12s_')
+    for sp in spl:
+        sp['opts']['split'] = {'h': '3h', '30min': '2h'}[sp['grid']['freq']]
+    specs += spl
     specs = ctx.specs(specs)
     base = [sp for sp in specs if '+' not in sp['id']]
     variants = []
@@ -182,6 +191,16 @@ def run(ctx):
                 bad['solver status'] = [ob.get('solve'), ov.get('solve')]
             elif ob.get('solve') == 'optimal' and abs(ob['value'] - ov['value']) > 1e-6 * (1 + abs(ob['value'])):
                 bad['optimal value'] = [ob['value'], ov['value']]
+            sb, sv = ob.get('split'), ov.get('split')
+            if isinstance(sb, dict) and isinstance(sv, dict):
+                ctx.count('split compared')
+                if sb.get('solve') != sv.get('solve') or ('setup_error' in sb) != ('setup_error' in sv):
+                    bad['split: status'] = [sb.get('solve') or sb.get('setup_error'), sv.get('solve') or sv.get('setup_error')]
+                elif sb.get('solve') == 'optimal':
+                    if abs(sb['value'] - sv['value']) > 1e-6 * (1 + abs(sb['value'])):
+                        bad['split: optimal value'] = [sb['value'], sv['value']]
+                    if len(sb['c']) != len(sv['c']) or not all(close(x, y) for x, y in zip(sb['c'], sv['c'])):
+                        bad['split: cost vector'] = True
         if bad:
             ctx.violation('impl-violation', {'spec': va, 'base_spec': sp, 'factor': k, 'observed': bad,
                                              'expected': 'same problem, value and volumes after re-expressing rates and durations for the other unit'},
